@@ -68,6 +68,10 @@ fn main() {
         c05::hunt_hzero(args[2].parse().unwrap(), args[3].parse().unwrap(), args[4].parse().unwrap());
         return;
     }
+    if args[1] == "hunt-fgmax" {
+        c15::hunt_fgmax(args[2].parse().unwrap(), args[3].parse().unwrap(), args[4].parse().unwrap(), args[5].parse().unwrap());
+        return;
+    }
     if args[1] == "hunt-c05" {
         // fvh hunt-c05 <n> <first> <count>
         c05::hunt(args[2].parse().unwrap(), args[3].parse().unwrap(), args[4].parse().unwrap());
